@@ -289,11 +289,3 @@ package nfa
 //@   modifies c.builder.states, c.builder.states[*], c.builder.byteClassSet.*
 //@   ensures forall b0 byte :: acc1(c.builder, result, endState, b0) <==> (lo <= int(b0) && int(b0) <= hi)
 //@   ensures int(result) == old(len(c.builder.states)) && len(c.builder.states) == old(len(c.builder.states)) + 1 && off(c.builder.states) == 0 && c.builder == old(c.builder) && c.builder.byteClassSet == old(c.builder.byteClassSet)
-
-//@ func (*Compiler).compileUTF82ByteRange
-//@   props C15 C07
-//@   requires builderOK(c) && 0x80 <= lo && lo <= hi && hi <= 0x7FF && int(endState) < len(c.builder.states)
-//@   modifies c.builder.states, c.builder.states[*], c.builder.byteClassSet.*
-//@   ensures forall b0 byte, b1 byte :: (exists k :: 0 <= k && k < len(result) && acc2(c.builder, result[k], endState, b0, b1)) <==> (0xC2 <= b0 && b0 <= 0xDF && 0x80 <= b1 && b1 <= 0xBF && lo <= (int(b0) - 0xC0) * 64 + (int(b1) - 0x80) && (int(b0) - 0xC0) * 64 + (int(b1) - 0x80) <= hi)
-//@   ensures len(c.builder.states) >= old(len(c.builder.states)) && off(c.builder.states) == 0 && c.builder == old(c.builder) && c.builder.byteClassSet == old(c.builder.byteClassSet)
-//@   ensures forall k :: 0 <= k && k < len(result) ==> int(result[k]) >= old(len(c.builder.states))
